@@ -254,6 +254,10 @@ Fixpoint shiftable (t : tok) : bool :=
   | THarmonyBegin | THarmonyEnd _ _ _ | TChannel _ | TVoice _ | TKeyFlag _ | TKeyShift _ | TTrackKey _ | TComment
   | TTimeSignature _ | TMeasureShift _ | TTempo _ | TVAdd _ | TQAdd _ | TTieMode _
   | TCC _ _ | TPitchBend _ _ | TRpnCmd _ _ _ _ | TRpnDirect _ _ => true     (* events at the pointer of the current track *)
+  | TMetaText _ _ | TPort _ => true                                           (* a meta event at the pointer of the current track *)
+  | TTempoChange _ _ => true                                                  (* tempo events from the pointer on, pointer restored *)
+  | TSysEx _ _ | TSysexReset _ | TSysExCommand _ _ | TGSEffect _ _ _ => true  (* a system exclusive event at the pointer *)
+  | TDeviceNumber _ => true                                                   (* no event, no time *)
   | _ => false
   end.
 
@@ -355,6 +359,70 @@ Lemma add_log_inv s m :
   s_harmony_time (add_log s m) = s_harmony_time s /\ s_timebase (add_log s m) = s_timebase s /\
   s_tempo (add_log s m) = s_tempo s /\ s_measure_shift (add_log s m) = s_measure_shift s.
 Proof. unfold add_log. destruct (_ <=? _); repeat split; reflexivity. Qed.
+
+(* ---- TempoChange: every step of the ramp keeps the translation ---- *)
+Lemma shifted_tempo_change L n s s' v : shifted L n s s' -> shifted L n (tempo_change s v) (tempo_change s' v).
+Proof.
+  intros (Hc & Hn & Ht & Hi & h & -> & Hh). unfold tempo_change. rewrite (cur_track_shift L n h s Hc).
+  cbn [shift_track tr_set_events tr_set_timepos tr_timepos].
+  set (G := fun x : song => s_set_time x v (s_timesig_frac x) (s_timesig_deno x) (s_measure_shift x)).
+  change (s_set_time (shift_state L n h s) v (s_timesig_frac (shift_state L n h s)) (s_timesig_deno (shift_state L n h s))
+            (s_measure_shift (shift_state L n h s))) with (shift_state L n h (G s)).
+  change (s_set_time s v (s_timesig_frac s) (s_timesig_deno s) (s_measure_shift s)) with (G s).
+  apply (shifted_upd_cur L n h (G s)); change (cur_track (G s)) with (cur_track s); try assumption; [track_eq|len_ok].
+Qed.
+Lemma shifted_move L n s s' d : shifted L n s s' ->
+  shifted L n (upd_cur s (fun t => tr_set_timepos t (tr_timepos t + d))) (upd_cur s' (fun t => tr_set_timepos t (tr_timepos t + d))).
+Proof.
+  intros (Hc & Hn & Ht & Hi & h & -> & Hh). apply (shifted_upd_cur L n h s); try assumption; [track_eq|len_ok].
+Qed.
+Lemma shifted_set_pos L n s s' p : shifted L n s s' ->
+  shifted L n (upd_cur s (fun t => tr_set_timepos t p)) (upd_cur s' (fun t => tr_set_timepos t (p + L))).
+Proof.
+  intros (Hc & Hn & Ht & Hi & h & -> & Hh). apply (shifted_upd_cur L n h s); try assumption; [track_eq|len_ok].
+Qed.
+Lemma shifted_ramp_loop L n a w st cnt : forall idx s s', shifted L n s s' ->
+  shifted L n (tempo_ramp_loop s a w st cnt idx) (tempo_ramp_loop s' a w st cnt idx).
+Proof.
+  induction idx as [|i r IH]; intros s s' H; [exact H|]. cbn [tempo_ramp_loop].
+  apply IH, shifted_move, shifted_tempo_change, H.
+Qed.
+Lemma shifted_pos L n s s' : shifted L n s s' -> tr_timepos (cur_track s') = tr_timepos (cur_track s) + L.
+Proof. intros (Hc & _ & _ & _ & h & -> & _). rewrite (cur_track_shift L n h s Hc). reflexivity. Qed.
+Lemma shifted_globals L n s s' : shifted L n s s' -> s_timebase s' = s_timebase s /\ s_tempo s' = s_tempo s.
+Proof. intros (_ & _ & _ & _ & h & -> & _). split; reflexivity. Qed.
+Lemma shifted_a_to_b L n s s' a b len : shifted L n s s' ->
+  shifted_res L n (tempo_change_a_to_b s a b len) (tempo_change_a_to_b s' a b len).
+Proof.
+  intros H. unfold tempo_change_a_to_b. destruct (shifted_globals L n s s' H) as [-> _]. rewrite (shifted_pos L n s s' H).
+  destruct (_ =? 0); [reflexivity|]. destruct (RAMP_MAX <? len); [reflexivity|].
+  cbn [shifted_res].
+  replace (tr_timepos (cur_track s) + L + len) with (tr_timepos (cur_track s) + len + L) by lia.
+  apply shifted_set_pos, shifted_tempo_change, shifted_set_pos, shifted_ramp_loop, H.
+Qed.
+Lemma shifted_exec_tempo_change L n s s' a rest : shifted L n s s' ->
+  shifted_res L n (exec_tempo_change s a rest) (exec_tempo_change s' a rest).
+Proof.
+  intros H. unfold exec_tempo_change. destruct (shifted_globals L n s s' H) as [_ ->].
+  destruct rest as [|b [|len [|x r]]]; try (apply shifted_a_to_b, H); cbn [shifted_res]; apply shifted_tempo_change, H.
+Qed.
+
+(* the system exclusive arms: the events carry the time they are given and nothing else of it *)
+Lemma cmd_sysex_shift L tp args cs : Cmd.cmd_sysex (tp + L) args cs = map (shift_ev L) (Cmd.cmd_sysex tp args cs).
+Proof. unfold Cmd.cmd_sysex. destruct args as [|a0 r]; [reflexivity|]. unfold ev_sysex. destruct cs; reflexivity. Qed.
+Lemma cmd_sysex_reset_shift L tp d kind : Cmd.cmd_sysex_reset (tp + L) d kind = map (shift_ev L) (Cmd.cmd_sysex_reset tp d kind).
+Proof. unfold Cmd.cmd_sysex_reset. repeat match goal with |- context [if ?b then _ else _] => destruct b end; reflexivity. Qed.
+Lemma cmd_sysex_command_shift L tp tag args : Cmd.cmd_sysex_command (tp + L) tag args = map (shift_ev L) (Cmd.cmd_sysex_command tp tag args).
+Proof. unfold Cmd.cmd_sysex_command. repeat match goal with |- context [if ?b then _ else _] => destruct b end; reflexivity. Qed.
+Definition map_res (L : Z) (r : res (list event)) : res (list event) :=
+  match r with Ok evs => Ok (map (shift_ev L) evs) | Panic x => Panic x | OutOfFuel => OutOfFuel | Unsupported w => Unsupported w end.
+Lemma cmd_gs_effect_shift L tp dev ch tag args :
+  Cmd.cmd_gs_effect (tp + L) dev ch tag args = map_res L (Cmd.cmd_gs_effect tp dev ch tag args).
+Proof.
+  unfold Cmd.cmd_gs_effect.
+  repeat match goal with |- context [if ?b then _ else _] => destruct b end; try reflexivity.
+  destruct args; reflexivity.
+Qed.
 
 Section StepShift.
   Variables (L : Z) (n : nat).
@@ -477,6 +545,17 @@ Section StepShift.
   Qed.
 
   (* the command arms that add events at the pointer of the current track *)
+  Lemma add_events_shift_gen f g :
+    g (tr_timepos (cur_track s) + L) (tr_channel (cur_track s)) = map (shift_ev L) (f (tr_timepos (cur_track s)) (tr_channel (cur_track s))) ->
+    shifted_res L n (Ok (add_events s f)) (Ok (add_events s' g)).
+  Proof.
+    intros Hf. rewrite !add_events_eq, ct'.
+    cbn [shift_track tr_set_events tr_set_timepos tr_timepos tr_channel]. rewrite Hf.
+    apply shifted_upd_cur; try assumption.
+    - unfold tr_push_events, shift_track. cbn [tr_set_events tr_set_timepos tr_events tr_timepos].
+      rewrite shift_tail_app by exact Hn. reflexivity.
+    - unfold tr_push_events. cbn [tr_set_events tr_events]. rewrite app_length. lia.
+  Qed.
   Lemma add_events_shift f : (forall tp ch, f (tp + L) ch = map (shift_ev L) (f tp ch)) ->
     shifted_res L n (Ok (add_events s f)) (Ok (add_events s' f)).
   Proof.
@@ -664,6 +743,20 @@ Section StepShift.
     - (* TRpnDirect *) unfold exec_rpn_direct, runtime_error. change (s_lineno s') with (s_lineno s).
       destruct args as [|a [|b [|c [|d l]]]]; try apply add_log_shifted_ok.
       apply add_events_shift. destruct nrpn; reflexivity.
+    - (* TMetaText *) destruct (_ && _); [|reflexivity]. apply add_events_shift. reflexivity.
+    - (* TPort *) apply add_events_shift. reflexivity.
+    - (* TTempoChange *) apply shifted_exec_tempo_change.
+      split; [exact Hc|]. split; [exact Hn|]. split; [exact Ht|]. split; [exact Hi|]. exists h. split; [reflexivity|exact Hh].
+    - (* TSysEx *) unfold exec_sysex, runtime_error. change (s_lineno s') with (s_lineno s).
+      destruct args as [|a0 ar]; [apply add_log_shifted_ok|]. destruct (SYSEX_MAX <? _); [reflexivity|].
+      apply add_events_shift. intros tp _. apply cmd_sysex_shift.
+    - (* TSysexReset *) change (s_device s') with (s_device s). apply add_events_shift. intros tp _. apply cmd_sysex_reset_shift.
+    - (* TSysExCommand *) apply add_events_shift. intros tp _. apply cmd_sysex_command_shift.
+    - (* TGSEffect *) unfold exec_gs_effect. rewrite ct'. change (s_device s') with (s_device s).
+      cbn [shift_track tr_set_events tr_set_timepos tr_timepos tr_channel]. rewrite cmd_gs_effect_shift.
+      destruct (Cmd.cmd_gs_effect _ _ _ _ _) as [evs| | |]; cbn [map_res bind]; try reflexivity.
+      apply add_events_shift_gen. reflexivity.
+    - (* TDeviceNumber *) apply (shifted_ok L n h (s_set_device s (as_u8 (nth 0 args 0)))); assumption.
   Qed.
   End One.
 
